@@ -39,6 +39,7 @@ func genC11(x *Ctx) *c11Scen {
 			rid++
 			sp.Routes = append(sp.Routes, RouteSpec{ID: rid, Method: []string{"GET", "POST"}[pairs[k]%2], Path: c11Subs[pairs[k]/2]})
 		})
+		sp.Repath = tp.Chance(150)
 		sc.Svcs = append(sc.Svcs, sp)
 	})
 	nSvc := len(sc.Svcs)
